@@ -9,8 +9,8 @@ use std::time::Duration;
 pub fn def() -> CheckDef {
     CheckDef {
         id: "C14",
-        functions: &["strict::functor::optic::Optic::{new,map_object,map_operations,map_arrow,adapt}", "interleave_blocks, partial_dagger", "strict::functor::{define_map_arrow,spider_map_arrow,map_half_spider}", "FiniteFunction::{transpose,injections,inj0,inj1}", "IndexedCoproduct::{flatmap_sources,coproduct,indexed_values,new}", "strict::OpenHypergraph::{compose,tensor,identity,spider,dagger,new,is_monogamous}"],
-        bounds_quick: "diagrams W<=2, X<=1, S,T<=2, interfaces<=2; lens-shaped optics with forward object map in {A->[A], A->[A,A]}, reverse object map in {A->[A], A->[], A->[A,A]}, residual of 0, 1 or 2 objects per operation; functoriality on pairs W<=1, X<=1",
+        functions: &["strict::functor::optic::Optic::{new,map_object,map_operations,map_arrow,adapt}", "interleave_blocks, partial_dagger", "strict::functor::{define_map_arrow,spider_map_arrow,map_half_spider}", "FiniteFunction::{transpose,injections,inj0,inj1}", "IndexedCoproduct::{flatmap_sources,coproduct,indexed_values,new}", "strict::OpenHypergraph::{compose,tensor,identity,spider,dagger,new,is_monogamous}", "lax::optic::{Optic::{map_arrow,map_adapted},to_strict_optic,Fwd,Rev}", "lax::functor::dyn_functor::DynFunctor"],
+        bounds_quick: "lax entry points: lax diagrams with <=3 nodes, <=2 hyperedges (<=5 node references; wirings enumerated, labels symbolic), four lens-shaped optics whose generator images carry pending unifications; strict core: diagrams W<=2, X<=1, S,T<=2, interfaces<=2; lens-shaped optics with forward object map in {A->[A], A->[A,A]}, reverse object map in {A->[A], A->[], A->[A,A]}, residual of 0, 1 or 2 objects per operation; functoriality on pairs W<=1, X<=1",
         bounds_thorough: "W<=3, X<=2; pairs W<=2",
         jobs,
         budget_s: (170, 3000),
@@ -48,7 +48,7 @@ fn optic_image(ff: u64, rf: u64, r: usize, e: &PEdge, a: &[T], b: &[T]) -> Plain
     p.t = fb.iter().zip(rb.iter()).flat_map(|(x, y)| x.iter().chain(y.iter()).cloned().collect::<Vec<T>>()).collect();
     p
 }
-fn optic_reference(ff: u64, rf: u64, r: usize, p: &Plain) -> Plain {
+pub fn optic_reference(ff: u64, rf: u64, r: usize, p: &Plain) -> Plain {
     substitute_with(
         p,
         &|l| {
@@ -60,7 +60,7 @@ fn optic_reference(ff: u64, rf: u64, r: usize, p: &Plain) -> Plain {
     )
 }
 /// split an interleaved interface (per object: F block, R block) into its F part and its R part
-fn split(ff: u64, rf: u64, labs: &[T], refs: &[T]) -> (Vec<T>, Vec<T>) {
+pub fn split(ff: u64, rf: u64, labs: &[T], refs: &[T]) -> (Vec<T>, Vec<T>) {
     let (mut f, mut r) = (vec![], vec![]);
     let mut p = 0;
     for l in labs {
@@ -164,5 +164,60 @@ pub fn jobs(tier: Tier, seed: u64) -> Vec<Job> {
     let mut rng = Rng::new(seed);
     let mut keyed: Vec<(usize, u64, Case)> = all.into_iter().map(|(c, k)| (c, rng.next(), k)).collect();
     keyed.sort_by_key(|(c, r, _)| (*c, *r));
-    keyed.into_iter().map(|(c, _, k)| case_job(k, cfg.clone(), per_job, c <= 8 && tier == Tier::Quick)).collect()
+    let mut strict: Vec<Job> = keyed.into_iter().map(|(c, _, k)| case_job(k, cfg.clone(), per_job, c <= 8 && tier == Tier::Quick)).collect();
+    let mut lax = lax_jobs(tier);
+    strict.reverse();
+    lax.reverse();
+    let mut out = vec![];
+    while !strict.is_empty() || !lax.is_empty() {
+        for _ in 0..3 {
+            if let Some(j) = strict.pop() {
+                out.push(j);
+            }
+        }
+        if let Some(j) = lax.pop() {
+            out.push(j);
+        }
+    }
+    out
+}
+
+fn oracle_lax(inp: &PV, out: &PV) -> T {
+    if out.is_panic() {
+        return tm::FALSE;
+    }
+    let (ff, rf, r) = params(inp, 1);
+    let p = compact(&strict_of_lax(inp.at(0).lax()));
+    let (a, b) = (labels_of(&p, &p.s), labels_of(&p, &p.t));
+    let c = plain_of_lax(out.at(0).lax());
+    let d = plain_of_lax(out.at(1).lax());
+    let want = optic_reference(ff, rf, r, &p);
+    // adapted form of the reference: interfaces FA ● RB -> FB ● RA
+    let (cs_f, cs_r) = split(ff, rf, &a, &want.s);
+    let (ct_f, ct_r) = split(ff, rf, &b, &want.t);
+    let mut adapted = want.clone();
+    adapted.s = cs_f.into_iter().chain(ct_r).collect();
+    adapted.t = ct_f.into_iter().chain(cs_r).collect();
+    tm::and(vec![iso(&want, &c), iso(&adapted, &d)])
+}
+pub fn lax_jobs(tier: Tier) -> Vec<Job> {
+    let per_job = Duration::from_secs(if tier == Tier::Quick { 90 } else { 1200 });
+    let cfg = base_cfg(tier);
+    let c8 = |v: u64| PV::T(tm::c(v, 8));
+    let mut out = vec![];
+    for sh in super::c13::shapes_for(tier) {
+        if sh.refs() > 5 {
+            continue;
+        }
+        for (ff, rf, r) in [(0u64, 0u64, 0usize), (0, 0, 1), (1, 2, 1), (0, 1, 2)] {
+            let sh2 = sh.clone();
+            let gen = move || {
+                let f = gen_lax(&sh2, "f");
+                crate::explore::assume(super::lax::consistent(&f));
+                PV::List(vec![PV::Lax(f), c8(ff), c8(rf), c8(r as u64)])
+            };
+            out.push(case_job(crate::case!(format!("lax optic map_arrow/map_adapted fwd={} rev={} residual={} {}", ff, rf, r, sh.show()), gen, c14_lax, oracle_lax, 2), cfg.clone(), per_job, tier == Tier::Quick && sh.refs() <= 3));
+        }
+    }
+    out
 }
